@@ -136,6 +136,15 @@ class Sort(Reordering):
                 done=False,
                 messages=(f"{current.operation} is order-dependent",),
             )
+        if isinstance(current.operation, Sort):
+            # Moving this sort upstream of an existing one would swap which
+            # sort's terms take precedence.
+            return UnaryCommutator(
+                first=None,
+                second=current.operation,
+                done=False,
+                messages=(f"{current.operation} determines the order this sort refines",),
+            )
         return UnaryCommutator(self, current.operation)
 
     def simplify(self, upstream: UnaryOperation) -> UnaryOperation | None:
